@@ -47,12 +47,14 @@ BASECOST = "skchange.costs.base.BaseCost"
 
 
 def check(ctx):
+    SPECIAL.clear()
     ctx.guard("C06.a NF-ADAPTER", "ChangeScore", lambda: check_change_score(ctx))
     ctx.guard("C06.a NF-ADAPTER", "Saving", lambda: check_saving(ctx))
     ctx.guard("C06.a NF-ADAPTER", "LocalAnomalyScore", lambda: check_local(ctx))
     ctx.guard("C06.b NF-DIRECT", "CUSUM", lambda: check_direct(ctx, "skchange.change_scores", "CUSUM", 3, "cusum"))
     ctx.guard("C06.b NF-DIRECT", "L2Saving", lambda: check_direct(ctx, "skchange.anomaly_scores", "L2Saving", 2, "l2_saving"))
     ctx.guard("C06.c PASS-THROUGH", "to_*", lambda: check_passthrough(ctx))
+    ctx.guard("C06.a SPECIAL-CASE", "adapters", lambda: check_special_cases(ctx))
     # population: every registered score must be one of the analysed ones
     known = {"ChangeScore", "CUSUM", "Saving", "L2Saving", "LocalAnomalyScore"}
     for reg in (("skchange.change_scores", "CHANGE_SCORES"), ("skchange.anomaly_scores", "ANOMALY_SCORES")):
@@ -84,7 +86,82 @@ def _adapter(ctx, modattr, width, cost_param, extra=None):
         return call_method(ex, obj, "evaluate", cuts)
 
     paths = run(ctx, ex, thunk)
+    # an adapter that asks whether the arbitrary cost is an instance of one particular cost class: the paths on which it is
+    # belong to the composition with that class, which is decided with the class itself plugged in (SPECIAL-CASE below)
+    special = {}
+    for p in paths:
+        for e in p.events:
+            if e.kind == "abstract_isinstance":
+                special[e.data["cls"].qualname] = e.data["cls"]
+    if special:
+        SPECIAL.setdefault((cls.name, width), {}).update(special)
+        paths = [p for p in paths if not any(v and "isinstance(" in c.key for c, v in p.facts)]
     return cls, ex, paths, state
+
+
+SPECIAL: dict = {}
+
+
+def check_special_cases(ctx):
+    """compositions <adapter>(<built-in cost>) that the adapter singles out by an isinstance test, each decided with the
+    built-in cost itself (its own fit / evaluate inlined) in every parameter mode"""
+    rule = "C06.a SPECIAL-CASE"
+    from . import c01
+    from ..values import ListV, SliceV
+
+    if not SPECIAL:
+        ctx.holds(rule, "none", "skchange/change_scores/from_cost.py", "no adapter asks which cost class it was given (no isinstance test of the cost against a particular cost class on the fit / evaluate paths): the uninterpreted-cost decision covers every composition")
+        return
+    for (aname, width), classes in sorted(SPECIAL.items()):
+        acls = next(c for c in ctx.P.classes.values() if c.name == aname)
+        loc = acls.methods["_evaluate"].loc() if "_evaluate" in acls.methods else acls.module.relpath
+        for q, ccls in sorted(classes.items()):
+            tab = c01.PARAM_TABLE.get(ccls.name)
+            if tab is None or tab["multivariate"] or aname not in ("ChangeScore", "Saving"):
+                ctx.undecided(rule, f"{aname}({ccls.name})", loc, "the adapter treats this cost class differently from an arbitrary cost; the composition with the class itself is not decided (multivariate kernel, local anomaly score or a class outside the cost table)")
+                continue
+            modes = ("optim", "fixed-array", "fixed-number") if aname == "ChangeScore" else ("fixed-array", "fixed-number")
+            for mode in modes:
+                key = f"{aname}({ccls.name})|{mode}"
+
+                def go(mode=mode, key=key, ccls=ccls, tab=tab):
+                    ex = new_executor(ctx, max_paths=600)
+
+                    def thunk(ex):
+                        X = data_sym(ex)
+                        cuts = cuts_sym(ex, width)
+                        cost = ex.new_object(ccls, c01.make_param(ex, tab, mode), {})
+                        obj = ex.new_object(acls, [cost], {})
+                        call_method(ex, obj, "fit", X)
+                        v = call_method(ex, obj, "evaluate", cuts)
+                        mark(ex, "adapter-done")
+                        ref = ex.new_object(ccls, c01.make_param(ex, tab, mode), {})
+                        call_method(ex, ref, "fit", X)
+                        if aname == "ChangeScore":
+                            cst = lambda i: Num(NF.const(i), (), "int")  # noqa: E731
+                            pair = lambda i, j: ex.index_num(cuts, [SliceV(NONE, NONE, NONE), ListV([cst(i), cst(j)])], None)  # noqa: E731
+                            parts = [call_method(ex, ref, "evaluate", pair(0, 2)), call_method(ex, ref, "evaluate", pair(0, 1)), call_method(ex, ref, "evaluate", pair(1, 2))]
+                        else:
+                            opt = ex.new_object(ccls, [], {})
+                            call_method(ex, opt, "fit", X)
+                            parts = [call_method(ex, ref, "evaluate", cuts), call_method(ex, opt, "evaluate", cuts)]
+                        return TupleV([v] + parts)
+
+                    paths = run(ctx, ex, thunk)
+                    rets = returns(paths)
+                    if not rets:
+                        ctx.undecided(rule, key, loc, "no returning path", found=sorted({(p.outcome, p.exc.exc_name if p.exc else "") for p in paths})[:4])
+                        return
+                    for p in rets:
+                        v, parts = p.value.items[0], p.value.items[1:]
+                        if not all(isinstance(x, Num) and x.nf is not None for x in [v] + parts):
+                            ctx.undecided(rule, key, loc, "a value without normal form on the path")
+                            continue
+                        want = parts[0].nf - parts[1].nf - (parts[2].nf if len(parts) > 2 else NF.const(0))
+                        if _no_opaque(ctx, rule, key, loc, v.nf):
+                            ctx.check(nf_equal(v.nf, want), rule, key, loc, ("change score == C(s,e) - C(s,k) - C(k,e)" if aname == "ChangeScore" else "saving == C at the baseline parameter - C at the optimal parameter") + f" with C = {ccls.name} itself in mode {mode}", found=repr(v.nf)[:400], expected=repr(want)[:400])
+
+                ctx.guard(rule, key, go, loc)
 
 
 def _no_opaque(ctx, rule, key, loc, nf):
